@@ -490,7 +490,15 @@ class Gen:
             bases = sorted({c["base"] for c in self.containers if c.get("base")} | {root_name})
             target = d(st.sampled_from(bases))
             wentries = [["c", target]]
-            if self.chance(0.5):
+            if target == root_name:
+                # a usable alternative root (it begins with the header): the root's own entries, then one byte
+                wt = {"kind": "int", "name": self.fresh("WT"), "unit": None,
+                      "enc": {"k": "int", "bits": 8, "sign": "unsigned", "order": BE, "dcal": None, "ccals": None}}
+                self.types.append(wt)
+                wp = self.fresh("WP")
+                self.params.append({"name": wp, "type": wt["name"], "short": None, "long": None})
+                wentries.append(["p", wp])
+            elif self.chance(0.5):
                 wentries.append(["p", d(st.sampled_from([p["name"] for p in self.params]))])
             self.containers.insert(d(st.integers(0, len(self.containers))),
                                    {"name": self.fresh("W"), "entries": wentries, "base": None, "match": None,
